@@ -36,6 +36,7 @@ from .c01 import IdentitySerializer, ToyCompressor
 
 NONTRIVIAL_RULE = "a malformed datagram (parse error) occurred, or >= 2 datagrams were exchanged"
 STUBS = [
+    "FakeDatagramSocket (udpclient shards): a real, never connected SOCK_DGRAM socket object whose send/recv are a FIFO of whole datagrams, under the REAL SocketDatagramTransport and UDPNetworkClient; in-memory backend answering create_udp_endpoint for the REAL AsyncUDPNetworkClient (audpclient shards)",
     "MemDatagramTransport / AsyncMemDatagramTransport: in-memory FIFO of whole datagrams standing for the kernel UDP socket (contract: send(d) enqueues exactly d, recv() pops exactly one datagram)",
     "LenPrefixed / SepIncr: harness incremental serializers written only with GeneratorStreamReader, used through the one-shot interface derived by AbstractIncrementalPacketSerializer",
 ]
@@ -149,6 +150,90 @@ def run_coro(coro):
     raise RuntimeError("coroutine suspended although the in-memory transport never suspends")
 
 
+import contextlib
+
+
+@contextlib.contextmanager
+def _endpoint(S, mode: str, proto):
+    """yields (tr, send, recv) for the receive/send layer `mode`:
+    sync / async: the low-level endpoints over the in-memory FIFO; udpclient: the real UDPNetworkClient over the real
+    SocketDatagramTransport + a scripted SOCK_DGRAM socket object; audpclient: the real AsyncUDPNetworkClient (lazy connection)
+    over an in-memory backend on the deterministic loop."""
+    if mode == "sync":
+        tr = MemDatagramTransport()
+        ep = DatagramEndpoint(tr, proto)
+        yield tr, (lambda p: ep.send_packet(p, timeout=math.inf)), (lambda: ep.recv_packet(timeout=0))
+    elif mode == "async":
+        tr = AsyncMemDatagramTransport()
+        ep = AsyncDatagramEndpoint(tr, proto)
+        yield tr, (lambda p: run_coro(ep.send_packet(p))), (lambda: run_coro(ep.recv_packet()))
+    elif mode == "udpclient":
+        import easynetwork.clients.udp as udp_mod
+
+        from .syncenv import Env, FakeDatagramSocket, StubSelector
+
+        env = Env(S, fuel=200, max_eagain=0)
+        sock = FakeDatagramSocket(env)
+        saved = udp_mod.SocketDatagramTransport
+        try:
+            udp_mod.SocketDatagramTransport = lambda s, retry_interval, **kw: saved(s, retry_interval, selector_factory=lambda: StubSelector(env), **kw)
+            client = udp_mod.UDPNetworkClient(sock, proto)
+            yield sock, (lambda p: client.send_packet(p)), (lambda: client.recv_packet(timeout=0))
+        finally:
+            udp_mod.SocketDatagramTransport = saved
+            sock.really_close()
+    elif mode == "audpclient":
+        from easynetwork.clients.async_udp import AsyncUDPNetworkClient
+        from easynetwork.lowlevel.api_async.backend._asyncio.backend import AsyncIOBackend
+        from easynetwork.lowlevel.socket import INETSocketAttribute
+
+        from .asyncenv import _FakeTransportSocket, loop_context
+
+        class _Sock(_FakeTransportSocket):
+            type = 2
+
+        class _Tr(AsyncMemDatagramTransport):
+            def backend(self):
+                return be
+
+            @property
+            def extra_attributes(self):
+                sock = _Sock()
+                return {
+                    INETSocketAttribute.socket: lambda: sock,
+                    INETSocketAttribute.family: lambda: 2,
+                    INETSocketAttribute.sockname: lambda: ("127.0.0.1", 1),
+                    INETSocketAttribute.peername: lambda: ("127.0.0.1", 2),
+                }
+
+        class _Backend(AsyncIOBackend):
+            async def create_udp_endpoint(self, host, port, **kw):
+                await self.coro_yield()
+                return tr
+
+        with loop_context() as loop:
+            be = _Backend()
+            tr = _Tr()
+            client = AsyncUDPNetworkClient(("host", 1), proto, be)
+
+            def arun(coro):
+                t = loop.create_task(coro)
+                loop.run_until_idle(60)
+                if not t.done():
+                    t.cancel()
+                    loop.run_until_idle(60)
+                    raise RuntimeError("client call did not finish although the in-memory transport never blocks")
+                return t.result()
+
+            try:
+                yield tr, (lambda p: arun(client.send_packet(p))), (lambda: arun(client.recv_packet()))
+            finally:
+                t = loop.create_task(client.aclose())
+                loop.run_until_idle(60)
+    else:
+        raise ValueError(mode)
+
+
 def _ser(kind):
     if kind == "lenprefixed":
         return LenPrefixed()
@@ -226,16 +311,10 @@ def exchange(kind: str, plan: list, mode: str = "sync"):
     def scenario(S):
         ser = _ser(kind)
         proto = DatagramProtocol(ser)
-        if mode == "sync":
-            tr = MemDatagramTransport()
-            ep = DatagramEndpoint(tr, proto)
-            send = lambda p: ep.send_packet(p, timeout=math.inf)  # noqa: E731
-            recv = lambda: ep.recv_packet(timeout=0)  # noqa: E731
-        else:
-            tr = AsyncMemDatagramTransport()
-            ep = AsyncDatagramEndpoint(tr, proto)
-            send = lambda p: run_coro(ep.send_packet(p))  # noqa: E731
-            recv = lambda: run_coro(ep.recv_packet())  # noqa: E731
+        with _endpoint(S, mode, proto) as (tr, send, recv):
+            return body(S, tr, send, recv)
+
+    def body(S, tr, send, recv):
         expected = []
         nsend = 0
         try:
@@ -300,16 +379,10 @@ def corpus_exchange(name: str, order: list, inject: int, mode: str = "sync"):
     def scenario(S):
         make, table = CORPUS[name]
         proto = DatagramProtocol(make())
-        if mode == "sync":
-            tr = MemDatagramTransport()
-            ep = DatagramEndpoint(tr, proto)
-            send = lambda p: ep.send_packet(p, timeout=math.inf)  # noqa: E731
-            recv = lambda: ep.recv_packet(timeout=0)  # noqa: E731
-        else:
-            tr = AsyncMemDatagramTransport()
-            ep = AsyncDatagramEndpoint(tr, proto)
-            send = lambda p: run_coro(ep.send_packet(p))  # noqa: E731
-            recv = lambda: run_coro(ep.recv_packet())  # noqa: E731
+        with _endpoint(S, mode, proto) as (tr, send, recv):
+            return body(S, tr, send, recv, table)
+
+    def body(S, tr, send, recv, table):
         packets = [table[i % len(table)] for i in order]
         pos = S.int(0, len(packets), "pos")
         # the decoders are C code: garbage is picked from a table by a symbolic index (symbolic bytes would be realised)
@@ -434,9 +507,12 @@ def shards(tier: str):
         for i, plan in enumerate(plans):
             for mode in ("sync", "async"):
                 add(f"exchange/{kind}/plan{i}/{mode}", "exchange", dict(kind=kind, plan=plan, mode=mode), cost=3 ** sum(n for _, n in plan))
+            if kind in ("sepincr", "toycomp", "line-CRLF") and (i in (0, 3) or not quick):
+                for mode in ("udpclient", "audpclient"):
+                    add(f"exchange/{kind}/plan{i}/{mode}", "exchange", dict(kind=kind, plan=plan, mode=mode), cost=6 ** sum(n for _, n in plan))
     for pre in range(3):
         out.append({"name": f"asyncio-endpoint/K{6 if quick else 8}/pre{pre}", "scenario": "props.c05:asyncio_endpoint", "params": dict(n=3, K=6 if quick else 8, prefix=[pre]), "budget": B, "cost": 200, "per_path_timeout": 30})
     for name in CORPUS:
-        for mode in ("sync", "async"):
+        for mode in ("sync", "async", "udpclient", "audpclient"):
             add(f"corpus/{name}/{mode}", "corpus_exchange", dict(name=name, order=[0, 1, 2, 3], inject=6 if quick else 8, mode=mode), cost=100)
     return out
